@@ -269,7 +269,7 @@ NEED = {
     "versionOr": "either version field differing is rejected (C11_header_version_detected)",
     "indexChecked": "indices from the archive are range-checked (C11_indices_in_bounds, C11_never_undefined)",
     "lengthChecked": "lengths from the archive are bounded by the stream (C11_never_undefined)",
-    "arraySizeChecked": "the element count of an archived const array is bounded by the stream before the elements are allocated (C11_never_undefined_mixed)",
+    "arraySizeChecked": "the element count of an archived const array is bounded by the stream before the elements are allocated (C11_container_archive_never_undefined, C11_set_archive_never_undefined)",
     "valueTypeLate": "a load that fails leaves no script variable with a kind but no data behind (its destructor would crash)",
 }
 
